@@ -175,6 +175,11 @@ impl Property for C12 {
     fn case_timeout_s(&self) -> u64 {
         120
     }
+    // C12 forbids crashes; a case whose analysis does not return within the per-case limit is neither a crash nor a
+    // clean return: it is counted as not judged (category in `excluded`), it does not make the whole run inconclusive
+    fn timeout_verdict(&self, _case: &Case) -> Option<Verdict> {
+        Some(Verdict::Skip("analysis-did-not-return-within-120s(not judged)".into()))
+    }
     fn strategy(&self, tier: Tier) -> BoxedStrategy<Case> {
         (sources(tier), 0u8..8, 0u8..32, proptest::bool::weighted(0.15)).prop_map(|((files, src), level, strict, std)| Case { files, src, level, strict, std }).boxed()
     }
